@@ -14,6 +14,8 @@ claims = {
          "cmd/go's own action IDs and what it does with them are assumed; the -ldflags/-literals staleness (DESIGN 12.1) is outside the functions under contract so far"),
  "C07": ("miss-on-error contracts for every garble cache reader (loadPkgCache, computePkgCache, loadGoAsmNames, debugdir readers) and the linker reuse condition, via ghost typestate hooks on the real I/O call sites",
          "go-internal cache.GetFile is assumed to fail for missing/empty/truncated entries; the truncated-linker defect is a listed known finding (no safe repair in this sandbox)"),
+ "C08": ("contracts on what the reflection analysis records and under which name: the obfuscated key is computed as the build computes it (fields with hashWithStruct of their struct, foreign objects with their declaring package), the original name is stored under that key, the post-patch searches for the name the main package was printed with; frame obligations on the two recording switches: every go/types constructor (map keys, type arguments, signatures, tuples, struct fields) and every SSA value kind reaches the recorder",
+         "necessary conditions only: the SSA dataflow that decides which values reach a reflection API (checkFunction, relatedParam, the per-package cache merge) is trusted, its order assumption is listed; the injected run-time replacer (a copy of strings.genericReplacer) is not verified"),
  "C09": ("decision contracts for 'is rewritten': the post-order visitor replaces every constant string of type string in the 8..2048 window, handleCompositeLiteral rewrites every byte slice/array literal (Go type identity) of constant elements in the window, the pre-order visitor prunes only const declarations, nosplit functions and -X variables",
          "astutil.Apply visiting every expression, the emitted encoder not reproducing the plaintext by chance, and the seed not reaching the binary are outside"),
  "C10": ("ground obligations over the real strip rules of stripRuntime (read from its switch) against the type-checked runtime sources of the installed GOROOT: every function that writes to stderr without the print builtins is emptied or only reachable through emptied functions; the statement's catalogue of crash printers is emptied; required-strip table matches; SMT contract of the print/println redirection closure; -tiny forwarded to the patched linker",
